@@ -17,7 +17,7 @@ Separate Extraction
   VectoredWrite.write_all_vectored
   AvroValue.conforms Encoding.encode_e Encoding.erase Encoding.layout_ok Encoding.canon Encoding.spec_encode
   Container.wbuild Container.wrun Container.cr_open Container.cr_run Container.mkCR Container.header_meta
-  SingleObject.so_encode SingleObject.so_decode SerHistory.hist_run FileSpec.ref_parse Parse.parse_schema Parse.check_for_cycles SchemaJson.schema_json Freeze.freeze_built PcfSpec.pcf Json.json_text
+  SingleObject.so_encode SingleObject.so_encode_sink SingleObject.so_decode SerHistory.hist_run SerHistory.hist_step FileSpec.ref_parse Parse.parse_schema Parse.check_for_cycles SchemaJson.schema_json Freeze.freeze_built PcfSpec.pcf Json.json_text
   Ownership.shape Ownership.freeze_run Ownership.exec_trace Ownership.fm0 Ownership.step Ownership.live_okb Ownership.st0
   Derive.derive_schema Derive.derive_schema_unregistered Derive.fullnames Derive.no_dup_bytes
   CodecLoop.replay_block CodecLoop.snappy_encode CodecLoop.snappy_decode CodecLoop.be32 CodecLoop.of_be32
